@@ -11,7 +11,9 @@ Ltac rel_cases H :=
   | _ \/ _ => destruct H as [H | H]
   end;
   match type of H with
-  | _ /\ _ = _ => let Hc := fresh "Hpath" in destruct H as [Hc H]; subst
+  | _ /\ _ = _ =>
+      let Hc := fresh "Hpath" in destruct H as [Hc H];
+      match type of H with ?o = _ => first [ subst o | rewrite H in *; clear H ] end
   end.
 
 (* full unfolding of everything computational, keeping real arithmetic symbolic *)
@@ -48,4 +50,13 @@ Ltac rel_pick unf :=
     lazymatch goal with
     | |- _ \/ _ => first [ left; go | right; go ]
     | |- _ /\ _ = _ => split; [ unf; tauto | reflexivity ]
+    end in go.
+
+(* as rel_pick, with a user tactic for the output equation *)
+Ltac rel_pick_eq unf fin :=
+  red;
+  let rec go :=
+    lazymatch goal with
+    | |- _ \/ _ => first [ left; go | right; go ]
+    | |- _ /\ _ = _ => split; [ unf; solve [ tauto | intuition lra ] | fin ]
     end in go.
